@@ -1,6 +1,7 @@
 package client
 
 import (
+	"errors"
 	"github.com/plgd-dev/go-coap/v3/udp/coder"
 	"context"
 	"bytes"
@@ -214,6 +215,74 @@ func zzC12_notification() {
 	// whatever is acquired next is owned exclusively
 	x, y := cc.AcquireMessage(cc.Context()), cc.AcquireMessage(cc.Context())
 	symAssert(x != y, "the pool never hands one message to two owners")
+}
+
+// a body whose size can be determined but whose content cannot be read
+type zzFailingBody struct{ size, pos int64 }
+
+func (b *zzFailingBody) Seek(offset int64, whence int) (int64, error) {
+	switch whence {
+	case 0:
+		b.pos = offset
+	case 1:
+		b.pos += offset
+	case 2:
+		b.pos = b.size + offset
+	}
+	return b.pos, nil
+}
+func (b *zzFailingBody) Read(p []byte) (int, error) { return 0, zzErrRead }
+
+var zzErrRead = errors.New("read fails")
+
+// error paths of the write path that give the retransmission copy back early: a confirmable request whose body
+// cannot be read (the copy cannot be made), and one refused for a message-ID collision - each pooled message goes
+// back exactly once
+func zzC12_write_errors() {
+	symGhost(true)
+	s := zzNewSession()
+	cc := zzNewConn(s, zzConnCfg{midSeed: 1000, nstart: 2, maxRetrans: 2, ackTimeout: 1 << 30, poolSize: 1024})
+	symSetNow(time.Unix(0, 1<<41))
+	var err error
+	switch symChoose("failure", 2) {
+	case 0:
+		req := cc.AcquireMessage(context.Background())
+		req.SetCode(codes.POST)
+		req.SetType(message.Confirmable)
+		req.SetToken(message.Token{0xA1})
+		_ = req.SetPath("/a")
+		req.SetBody(&zzFailingBody{size: 5})
+		if symChoose("one-way", 2) == 1 {
+			err = cc.WriteMessage(req)
+		} else {
+			_, err = cc.Do(req)
+		}
+		cc.ReleaseMessage(req)
+		symCover("unreadable-body")
+	case 1:
+		a := &zzCall{token: message.Token{0xB1}}
+		go zzDo(cc, a)
+		zzWaitWritten(s, 1)
+		symIdle()
+		req := cc.AcquireMessage(context.Background())
+		req.SetCode(codes.GET)
+		req.SetType(message.Confirmable)
+		req.SetToken(message.Token{0xB2})
+		req.SetMessageID(s.written[0].mid)
+		_ = req.SetPath("/b")
+		err = cc.WriteMessage(req)
+		cc.ReleaseMessage(req)
+		zzAnswer(cc, s.written[0], 1, 0, 1)
+		symWaitUntil(func() bool { return a.done })
+		if a.resp != nil {
+			cc.ReleaseMessage(a.resp)
+		}
+		symCover("message-id-collision")
+	}
+	symAssert(err != nil, "the request is refused")
+	symIdle()
+	x, y, z := cc.AcquireMessage(cc.Context()), cc.AcquireMessage(cc.Context()), cc.AcquireMessage(cc.Context())
+	symAssert(x != y && y != z && x != z, "the pool never hands one message to two owners")
 }
 
 // response writer: SetMessage releases the replaced message, Swap does not
